@@ -245,6 +245,14 @@ def work(task):
       stats['corrupted'] += 1; kinds['unterminated-comment'] = kinds.get('unterminated-comment', 0) + 1; stats['compiles'] += 1; stats['asserted'] += 1; stats['comparisons'] += 1
       out = impl.Compiled(t).sql(c.preds[0])
       if out[0] == 'script': bad('F52-unterminated-block-comment-accepted', 'SQL was produced for a program whose last block comment is never closed (the rest of the text is silently dropped)', t, 'unterminated-comment')
+      # a recursive predicate without a base case, read only under negation, whose NAME contains an underscore (finding F56;
+      # the twin without the underscore must be rejected - asserted, not a finding)
+      for nm, sig in (('Zzp9', 'recursion-without-base-case-under-negation-accepted'), ('Zz_p9', 'F56-underscore-recursion-without-base-case-under-negation-accepted')):
+        t = base_text + '\nZzt9(1);\n%s(x) :- %s(x), Zzt9(x);\nZzq9(x) :- Zzt9(x), ~%s(x);\n' % (nm, nm, nm)
+        stats['corrupted'] += 1; kinds['no-base-case-under-negation'] = kinds.get('no-base-case-under-negation', 0) + 1; stats['compiles'] += 1; stats['asserted'] += 1; stats['comparisons'] += 1
+        out = impl.Compiled(t).sql('Zzq9')
+        if out[0] == 'script': bad(sig, 'SQL was produced for Zzq9 although %s is recursive without a base case (the negation is compiled to a vacuous condition)' % nm, t, 'no-base-case-under-negation')
+        elif out[0] != 'diag': bad('internal-error/no-base-case-under-negation/%s' % out[1], 'rejected with %s instead of a diagnostic: %s' % (out[1], out[2][:120]), t, 'no-base-case-under-negation')
   by = {}
   for v in viol: by.setdefault(v['sig'], []).append(v)
   outv = []
